@@ -78,9 +78,23 @@ NoStuck == (AllStarted /\ AllDelivered) => (\A p \in Parties : Finished(p)) /\ s
 (* C07 liveness form: every behaviour of a fair transport finishes *)
 EventuallyFinished == <>(\A p \in Parties : Finished(p))
 
-(* C08: a flipped hand-over never advances a round / sends / ends.            *)
+(* C08: a message handed over on the wrong channel kind is never consumed: the *)
+(* call has exactly the effect a call that stores nothing would have (in the   *)
+(* resharing protocols a party whose current round awaits nobody moves on at   *)
+(* any call - that is the call, not the message).                              *)
+Tick(p) ==
+  IF rnd[p] \in {0, Done} \/ failed[p]
+  THEN [rnd |-> rnd[p], ok |-> okset[p], out |-> {}, ended |-> 0, culprits |-> {}]
+  ELSE Settle(p, rnd[p], okset[p], store[p])
 FlipInert ==
-  [][ flips' = flips + 1 => (rnd' = rnd /\ sent' = sent /\ ended' = ended /\ okset' = okset) ]_vars
+  [][ flips' = flips + 1 =>
+        \E p \in Parties :
+          /\ \A q \in Parties \ {p} : rnd'[q] = rnd[q] /\ okset'[q] = okset[q] /\ ended'[q] = ended[q]
+          /\ rnd'[p] = Tick(p).rnd
+          /\ okset'[p] = Tick(p).ok
+          /\ ended'[p] = ended[p] + Tick(p).ended
+          /\ sent' = sent \cup Tick(p).out
+          /\ got' = got ]_vars
 
 (* C08: after every update of p the reported awaited set is exact.            *)
 WaitingExact ==
